@@ -274,6 +274,7 @@ func (fc *FnCtx) exec(st *State, s ast.Stmt, label string) *State {
 	case *ast.SendStmt:
 		fc.eval(st, x.Chan)
 		fc.eval(st, x.Value)
+		fc.onChan(st, "send", x.Chan, x)
 		if !fc.lenient {
 			panic(unsupported("channel send"))
 		}
